@@ -179,7 +179,7 @@ def run(module, cfg=None, cfg_text=None, *, workers=16, env=None, simulate=None,
             r.error = 'action:' + m.group(1)
             in_trace = True
             continue
-        if line.startswith('Error: Temporal properties were violated'):
+        if line.startswith('Error: Temporal properties were violated') or re.match(r'^Error: Temporal property \S+ was violated', line):
             r.error = 'temporal'
             in_trace = True
             continue
